@@ -288,7 +288,7 @@ impl Property for C15 {
             for j in 0..rows {
                 let m = if j == 0 { s.left_n } else if j == rows - 1 { s.right_n } else { 0 };
                 let (got, mag) = sref(s.tau[j], m);
-                if (got - s.y[j]).abs() > tol * (mag + s.y[j].abs() + cscale) {
+                if !((got - s.y[j]).abs() <= tol * (mag + s.y[j].abs() + cscale)) {
                     v.fail(
                         if m == 0 { "spline does not pass through a data point" } else { "spline does not meet the requested end derivative condition" },
                         format!("k={} t={:?} tau={:?} row {} (derivative order {}): s = {:e}, y = {:e} (cond {:.1e})", k, t, s.tau, j, m, got, s.y[j], cond),
@@ -301,7 +301,7 @@ impl Property for C15 {
                 let lhs: f64 = (0..n).map(|j| square[i][j] * coef[j]).sum();
                 let rhs: f64 = (0..rows).map(|r| bmat[r][i] * s.y[r]).sum();
                 let sc: f64 = (0..n).map(|j| (square[i][j] * coef[j]).abs()).sum::<f64>() + rhs.abs();
-                if (lhs - rhs).abs() > tol * sc + 1e-300 {
+                if !((lhs - rhs).abs() <= tol * sc + 1e-300) {
                     v.fail("least-squares coefficients do not satisfy the normal equations", format!("row {}: {:e} vs {:e}", i, lhs, rhs));
                     return v;
                 }
@@ -328,14 +328,14 @@ impl Property for C15 {
                         return v;
                     }
                 };
-                if (got - exp).abs() > 1e-10 * (mag + cscale) {
+                if !((got - exp).abs() <= 1e-10 * (mag + cscale)) {
                     v.fail("spline evaluation differs from coefficients x reference basis", format!("k={} t={:?} x={:?} m={}: {:e} vs {:e}", k, t, x, m, got, exp));
                     return v;
                 }
                 if let (Some(pc), false) = (&s.poly, s.lsq) {
                     let (pv, pm) = poly_eval(pc, t[0], *x, m);
                     let dscale = (k as f64 / 0.25).powi(m as i32);
-                    if (got - pv).abs() > tol * (pm + mag + cscale * dscale) {
+                    if !((got - pv).abs() <= tol * (pm + mag + cscale * dscale)) {
                         v.fail(
                             "spline of polynomial data does not reproduce the polynomial",
                             format!("k={} t={:?} tau={:?} end orders ({}, {}), x={:?}, derivative {}: spline {:e}, polynomial {:e} (cond {:.1e})", k, t, s.tau, s.left_n, s.right_n, x, m, got, pv, cond),
@@ -385,19 +385,19 @@ impl Property for C15 {
         let kind = c.data_kind % 3;
         let check_sens = |v: &mut Verdict, x: f64, value: f64, grad: &[f64], hess_max: f64, what: &str| -> bool {
             let (exp, mag) = sref(x, 0);
-            if (value - exp).abs() > 1e-9 * cond * (mag + cscale) {
+            if !((value - exp).abs() <= 1e-9 * cond * (mag + cscale)) {
                 v.fail(format!("{} | value differs from the float spline", what), format!("x={:?}: {:e} vs {:e}", x, value, exp));
                 return false;
             }
             for j in 0..rows {
                 let e: f64 = (0..n).map(|i| reference[i].eval(t, x, 0).0 * unit_cols[i][j]).sum();
                 let sc: f64 = (0..n).map(|i| (reference[i].eval(t, x, 0).0 * unit_cols[i][j]).abs()).sum::<f64>() + 1.0;
-                if (grad[j] - e).abs() > 1e-9 * cond * sc {
+                if !((grad[j] - e).abs() <= 1e-9 * cond * sc) {
                     v.fail(format!("{} | sensitivity to a datum is not the spline of the unit data", what), format!("x={:?} d/dy{}: {:e} vs {:e} (cond {:.1e})", x, j, grad[j], e, cond));
                     return false;
                 }
             }
-            if hess_max != 0.0 && hess_max.abs() > 1e-9 * cond * (cscale + 1.0) {
+            if hess_max != 0.0 && !(hess_max.abs() <= 1e-9 * cond * (cscale + 1.0)) {
                 v.fail(format!("{} | second-order sensitivity to data is not zero", what), format!("{:e}", hess_max));
                 return false;
             }
@@ -436,7 +436,7 @@ impl Property for C15 {
                         }
                         let (d1, dm) = sref(*x, 1);
                         let gx = b.gradient1(vec!["x".to_string()])[0];
-                        if (gx - d1).abs() > 1e-9 * cond * (dm + cscale) {
+                        if !((gx - d1).abs() <= 1e-9 * cond * (dm + cscale)) {
                             v.fail("first-order data, dual abscissa | sensitivity to x is not the spline's derivative", format!("{:e} vs {:e}", gx, d1));
                             return v;
                         }
@@ -480,7 +480,7 @@ impl Property for C15 {
                 });
                 match r {
                     Ok((Ok(a), Ok(b), true, (Ok(Number::Dual2(m0)), Ok(Number::Dual2(m1)), true))) => {
-                        let hmax = |d: &Dual2| d.gradient2(names.clone()).iter().fold(0.0f64, |m, x| if x.abs() > m.abs() { *x } else { m });
+                        let hmax = |d: &Dual2| d.gradient2(names.clone()).iter().fold(0.0f64, |m, x| if x.is_nan() || x.abs() > m.abs() { *x } else { m });
                         if !check_sens(&mut v, *x, a.real(), &a.gradient1(names.clone()).to_vec(), hmax(&a), "second-order data") {
                             return v;
                         }
@@ -489,7 +489,7 @@ impl Property for C15 {
                         }
                         let (d2v, d2m) = sref(*x, 2);
                         let hx = b.gradient2(vec!["x".to_string()])[[0, 0]];
-                        if (hx - d2v).abs() > 1e-9 * cond * (d2m + cscale) {
+                        if !((hx - d2v).abs() <= 1e-9 * cond * (d2m + cscale)) {
                             v.fail("second-order data, dual abscissa | second sensitivity to x is not the spline's second derivative", format!("{:e} vs {:e}", hx, d2v));
                             return v;
                         }
@@ -539,7 +539,7 @@ impl Property for C15 {
                     for x in &xs {
                         let lib = unit.ppdnev_single(x, 0).unwrap_or(f64::NAN);
                         let exp: f64 = (0..n).map(|i| reference[i].eval(t, *x, 0).0 * unit_cols[i][j]).sum();
-                        if (lib - exp).abs() > 1e-9 * cond {
+                        if !((lib - exp).abs() <= 1e-9 * cond) {
                             v.fail("spline solved on unit data differs from the reference", format!("unit datum {}: {:e} vs {:e}", j, lib, exp));
                             return v;
                         }
